@@ -153,6 +153,19 @@ def body_locate(c, ctx):
                 ctx.fail('located_cell_does_not_contain_point', f'{pclass} point {p[1].tolist()} -> cell {int(cells[j])}, reference '
                          f'coordinates {X.tolist()}', pclass=pclass, **sig)
                 break
+    # every point of the domain once more on its own (the candidate search then sees one point's neighbourhood only)
+    if not ctx.failures:
+        for p in inside[:8]:
+            try:
+                cell = np.asarray(finder(*p[1][:, None]))
+            except (ValueError, IndexError) as e:
+                ctx.fail('domain_point_rejected', f'{p[0]} point {p[1].tolist()} of the meshed domain, accepted in a batch, raises alone: '
+                         f'{type(e).__name__}: {e}', pclass=p[0], single=True, **sig)
+                break
+            if cell.shape != (1,) or not contains(m, kind, int(cell[0]), p[1])[0]:
+                ctx.fail('located_cell_does_not_contain_point', f'{p[0]} point {p[1].tolist()} asked alone -> {cell.tolist()}',
+                         pclass=p[0], **sig)
+                break
     for p in outside:
         try:
             cells = finder(*p[1][:, None])
